@@ -16,6 +16,7 @@ import PrologVerif.Driver.C16
 import PrologVerif.Driver.C09
 import PrologVerif.Driver.C20
 import PrologVerif.Driver.C17
+import PrologVerif.Driver.C06
 open PrologVerif PrologVerif.Driver
 
 def handlers : List (String × Handler) :=
@@ -51,7 +52,11 @@ def handlers : List (String × Handler) :=
     ("c17.lang", C17.handlerLang),
     ("c01.answers", C01.handler),
     ("c03.answers", C01.handler),
-    ("c04.answers", C01.handler) ]
+    ("c04.answers", C01.handler),
+    ("c06.lex", C06.lexHandler),
+    ("c06.atoms", C06.atomsHandler),
+    ("c06.numbers", C06.numbersHandler),
+    ("c06.terms", C06.termsHandler) ]
 
 partial def loop (h : IO.FS.Stream) (out : IO.FS.Stream) (f : Handler) : IO Unit := do
   let line ← h.getLine
